@@ -104,10 +104,15 @@ def s2_random(rnd, n):
     return out
 
 
-def expected_from_spec(scns, ck):
+def expected_from_spec(scns, ck, liveness=False):
     """TLC: run WntrSim on each scenario, check Refines, emit the expected timelines."""
+    for s in scns:
+        s.setdefault("pauses", [])
+        s.setdefault("failAt", 0)
+        s.setdefault("convErr", False)
     parts = common.chunks(scns, common.NCPU)
-    cfg = "SPECIFICATION Spec\nINVARIANT Emit\nPROPERTY NeverBackwards\nPROPERTY DefinitionUnchanged\nCHECK_DEADLOCK FALSE\n"
+    cfg = ("SPECIFICATION %s\nINVARIANT Emit\nINVARIANT FailStop\nPROPERTY NeverBackwards\nPROPERTY DefinitionUnchanged\n%s"
+           "CHECK_DEADLOCK FALSE\n" % ("FairSpec" if liveness else "Spec", "PROPERTY Terminates\n" if liveness else ""))
 
     def one(part):
         wd = common.subdir("c04_%d" % part[0]["id"])
